@@ -61,8 +61,11 @@ func baseChain(v ssa.Value, depth int) (kind string, path string) {
 				if x.Common().IsInvoke() {
 					args = append([]ssa.Value{x.Common().Value}, args...)
 				}
-				for _, a := range args {
+				for i, a := range args {
 					if !mayPointTo(a.Type()) {
+						continue
+					}
+					if ct != nil && ct.ResultOf != nil && !containsInt(ct.ResultOf, i) {
 						continue
 					}
 					k, p := baseChain(a, depth+1)
@@ -926,4 +929,13 @@ func guardedState(p *Prog, spT *types.Named) (fields map[string]bool, roots map[
 		}
 	}
 	return fields, roots
+}
+
+func containsInt(xs []int, k int) bool {
+	for _, x := range xs {
+		if x == k {
+			return true
+		}
+	}
+	return false
 }
